@@ -22,7 +22,7 @@ pub fn check() -> Check {
         rule: "per run: a seeded tiny program (2-3 threads, 1-3 operations each, one primitive family at a time or mixed: mutex/rwlock/try-locks, condvar, barrier, once + is_completed, atomics, channels with endpoint drops, park/unpark, joins); the model's outcome set is enumerated; the runtime's choice tree is explored exhaustively by scripted schedules up to a leaf budget. Violations: an observed outcome the model does not allow, or — when the tree was exhausted — a model outcome that no schedule produces (keyed by the kind of operation that lacks a preceding choice point). Distinct = (program, schedule); non-trivial = program whose model outcome set has at least 2 elements",
         assumptions: &["outcome = per-thread operation results plus termination verdict; barrier leader identity and task ids are not part of the outcome", "the reference model may over-approximate only in ways argued harmless in DESIGN.md (absorbing fast paths)", "programs whose runtime tree exceeds the leaf budget are inconclusive (counted, never alarmed)"],
         real_components: "real: shuttle-std primitives and shuttle-engine runtime explored through the harness's scripted FollowSched; model: outcome enumeration in harness/src/model.rs",
-        batches: |t: Tier| vec![Batch::new("tiny", t.pick(2500, 60000), 50)],
+        batches: |t: Tier| vec![Batch::new("tiny", t.pick(2500, 60000), 50), Batch::new("known", 2, 1)],
         run,
         replay,
         probes: &["programs_exhausted", "programs_with_2+_outcomes", "outcomes_compared", "inconclusive_budget", "deadlock_outcomes"],
@@ -224,9 +224,33 @@ fn check_program(p: &Program, budget: usize, out: &mut RunOut) {
     }
 }
 
-fn run(_batch: &str, _idx: u64, seed: u64, tier: Tier) -> RunOut {
+/// pinned witnesses of the known findings F2 (mpsc endpoint drop) and F18 (barrier arrival)
+fn witness(idx: u64) -> Program {
+    use crate::prog::Resources;
+    if idx == 0 {
+        Program {
+            res: Resources { chans: vec![None], rx_owner: vec![0], ..Default::default() },
+            bodies: vec![vec![Op::Spawn(1), Op::DropRx(0), Op::TryRecv(0)], vec![Op::Send(0), Op::DropTx(0)]],
+        }
+    } else {
+        Program {
+            res: Resources { barriers: vec![2], ..Default::default() },
+            bodies: vec![
+                vec![Op::Spawn(1), Op::BarrierWait(0), Op::Join(0)],
+                vec![Op::Spawn(2), Op::BarrierWait(0), Op::BarrierWait(0), Op::BarrierWait(0), Op::Join(0)],
+                vec![Op::BarrierWait(0), Op::BarrierWait(0), Op::BarrierWait(0)],
+            ],
+        }
+    }
+}
+
+fn run(batch: &str, idx: u64, seed: u64, tier: Tier) -> RunOut {
     let mut rng = Rng::new(seed);
     let mut out = RunOut::default();
+    if batch == "known" {
+        check_program(&witness(idx), 6000, &mut out);
+        return out;
+    }
     let p = gen_tiny(&mut rng);
     check_program(&p, tier.pick(600, 6000) as usize, &mut out);
     out
